@@ -951,7 +951,7 @@ def r9_edits_end_to_end(rep, src, tier):
         names0 = {x_[1].lower() for x_ in paras0[0]}
         ops = [o_ for o_ in OPS if o_[1].lower() in names0 or o_[1].startswith('New')]
         pairs = [list(h_) for h_ in itertools.permutations(ops, 2)]
-        hists = [[o_] for o_ in ops] + (pairs if tier == 'thorough' else pairs[3::29])
+        hists = [[o_] for o_ in ops] + (pairs if tier == 'thorough' else pairs[3::47])
         for hist in hists:
             paras = [[list(x_) for x_ in p_] for p_ in paras0]
             heap, it = world()
